@@ -3,15 +3,35 @@
 // C16 — the AutoNAT v2 server cannot be used for amplification and obeys its rate limits.
 //
 // Full-stack, lock-level simulation. Real nodes on simnet (basic host, identify, swarm, TCP dial
-// path, upgrader, Noise, multistream, yamux — all instrumented, plus the instrumented autonatv2 package):
+// path, upgrader, Noise, multistream, yamux — all instrumented, plus the instrumented autonatv2 package; in the QUIC
+// world also p2p/transport/quic + quicreuse + quic-go and, in part of the runs, p2p/transport/webtransport +
+// webtransport-go + http3 over simnet's UDP model):
 //
 //	S  1.2.3.4:4001  the host the AutoNAT v2 service is started on (autonatv2.New(dialer, WithServerRateLimit(...)); Start(S.Host))
 //	D  1.2.3.5       the service's dialer host, built the way libp2p.New builds it (config.makeAutoNATV2Host): a dial-only
 //	                 swarm (no-delay dial ranker, read-only black-hole detector) under a BLANK host — no identify.
-//	                 Every dial-back is a logged simnet dial with From = 1.2.3.5.
+//	                 Every TCP dial-back is a logged simnet dial with From = 1.2.3.5, every UDP datagram it sends is seen
+//	                 by the UDP filter (a datagram starting with a QUIC long-header Initial packet = a dial attempt).
 //	V  9.9.9.9:4001  the amplification victim: a node that never talks to S and serves dial-back only to notice misuse
 //	C0..C4  5.6.7.(10+i):4001, second listener on 7.7.(10+i).1:4001 (two clients may share an IP; a client may announce
 //	                 V's address through identify)  byzantine clients (client_test.go)
+//
+// The first draw selects the stratum; 0-5 are the TCP world (everything above over TCP only), 6 is the QUIC world:
+// S, V and the clients listen on TCP and /udp/4001/quic-v1 (second listeners too), in a third of the runs on
+// /quic-v1/webtransport as well; D has the QUIC transport and in a third of the runs WebTransport; D's UDP black-hole
+// counter is a shared counter in state Allowed (as on a host that has been dialling), absent, or fresh (the read-only
+// detector then refuses UDP); each client reaches S over TCP or over QUIC (drawn), so that "the IP the request came
+// from" is read from QUIC connections too; the first 0-3 clients sit behind ONE source NAT (n.SetNAT, public IP
+// 6.6.6.6, private 10.1.0.(10+i):(4001+i)): S then observes 6.6.6.6 for all of them while they name their private
+// address (never public: must not be dialled), the NAT's mapped endpoint (same IP as observed: no dial data; the QUIC
+// dial-back really arrives through the mapping, the TCP one hangs like a dropped SYN) or a foreign IP (dial data);
+// UDP loss (0/5/15 %), duplication and latencies are drawn and apply after the warm-up. Address lists of the QUIC world
+// mix /tcp, /udp/../quic-v1, /quic-v1/webtransport with the node's CURRENT certhashes (dialable only if D has that
+// transport: classified accordingly), webtransport without certhash, /quic-v1 on private IPs, DNS forms (/dns4, /dns,
+// /dns6 + tcp or quic-v1, /dnsaddr: no transport claims them; a WebTransport-over-DNS form is NOT generated, the swarm
+// would resolve it with the real resolver), kinds no transport claims (/ws, /tls/ws, /webrtc-direct, /p2p-circuit,
+// draft-29 /quic), dead ports, other clients, S, garbage. Inside the QUIC world one of the scenarios 0, 1, 4, 5 runs.
+// The statement's clauses and the oracles are the same in both worlds; the observed IP of a client is the NAT's.
 //
 // The clients speak /libp2p/autonat/2/dial-request raw. One run = a stratum (general mix | concurrency |
 // one tight per-minute limit: global, per-peer, dial-data | slot accounting), a drawn configuration of the four
@@ -47,6 +67,7 @@
 //	                                            after the client saw the request end, so a grace period is allowed and
 //	                                            ANY peer's request justifies the target.
 //	C16/dial-to-ineligible-address              ... appears only as an entry that is surely not public+dialable
+//	C16/datagram-to-unrequested-address         any other UDP datagram of D to an endpoint that no request sent before it names
 //	C16/amplification/dial-without-dial-data-request, C16/amplification/dial-before-dial-data-complete
 //	                                            no candidate request justifies the dial: for each candidate the target IP
 //	                                            differs from the client's IP and the client had not STARTED writes
@@ -118,6 +139,15 @@
 //	slot released before the response write + again by the      concurrent-requests-exceeded                   (slot-accounting stratum: B held,
 //	guarded defer when that write fails                         A reset at the nonce, then C, D, E: B, C, D served with limit 2)
 //
+// Third round (QUIC world; mutations of the overlay copy of server.go, 8 workers, first..slowest report in seconds):
+//
+//	policy compares the dial IP with the connection's LOCAL address     amplification/dial-without-dial-data-request   t 3..7
+//	                                                                    (a client names S's own IP: no data asked), rejected-below-every-limit
+//	no dial data for /udp addresses                                     amplification/dial-without-dial-data-request   t 3..4  (QUIC Initial to a foreign IP)
+//	private /quic-v1 addresses treated as dialable                      dial-to-ineligible-address, no-eligible-address-not-refused   t 4..21
+//	limiter keyed by the observed IP instead of the peer id             rejected-below-every-limit (two clients behind the NAT)       t 2..8
+//	policy also compares ports                                          amplification/dial-without-dial-data-request   t 1..3
+//
 // Unchanged tree: 0 violations over 15959 runs (seed 1) + 7330 runs (seed 77) + the quick tier (first round); after the
 // second-round strengthening a 240 s x 8 workers soak and the quick tier are clean; ./check selftest identical.
 //
@@ -163,21 +193,48 @@ import (
 	"github.com/libp2p/go-libp2p/p2p/net/swarm"
 	"github.com/libp2p/go-libp2p/p2p/protocol/autonatv2"
 	ma "github.com/multiformats/go-multiaddr"
-	manet "github.com/multiformats/go-multiaddr/net"
+	"github.com/multiformats/go-multibase"
+	mh "github.com/multiformats/go-multihash"
 
 	"verifsim/harness/common"
 	"verifsim/simhost"
 	"verifsim/simnet"
+	"verifsim/simrand"
 	"verifsim/simrt"
 )
 
 func TestSim(t *testing.T) { common.Main(t, common.Harness{Property: "C16", Run: run}) }
 
 const (
-	ipS = "1.2.3.4"
-	ipD = "1.2.3.5"
-	ipV = "9.9.9.9"
+	ipS   = "1.2.3.4"
+	ipD   = "1.2.3.5"
+	ipV   = "9.9.9.9"
+	ipNAT = "6.6.6.6" // public IP of the NAT that some clients of the QUIC world sit behind
 )
+
+// a well-formed certhash component for WebTransport / WebRTC addresses of endpoints that have no such listener
+var fakeCerthash = func() string {
+	h, err := mh.Sum([]byte("verifsim c16"), mh.SHA2_256, -1)
+	if err != nil {
+		panic(err)
+	}
+	s, err := multibase.Encode(multibase.Base64url, h)
+	if err != nil {
+		panic(err)
+	}
+	return s
+}()
+
+// qworld = the configuration of the QUIC world (stratum 6 of the first draw)
+type qworld struct {
+	on        bool
+	dWT       bool // the dialer host has the WebTransport transport
+	nodesWT   bool // clients and the victim listen on WebTransport too
+	blackHole int  // the dialer's UDP black-hole counter: 0 shared counter in state Allowed, 1 detector off, 2 fresh counter (read-only => UDP refused)
+	drop, dup int  // UDP loss / duplication per mille after the warm-up
+	ulat      bool
+	natN      int // clients 0..natN-1 sit behind ONE NAT
+}
 
 type limits struct{ rpm, perPeer, dialData, maxConc int }
 
@@ -191,22 +248,24 @@ type world struct {
 	byNonce  map[uint64]*reqRec
 	dbEvents []dbEvent
 	done     int
+
+	q        qworld
+	warm     bool               // warm-up phase: no UDP loss
+	udpInit  []dialRec          // every QUIC Initial datagram the dialer host sent
+	udpOther map[string]dialRec // the first other datagram of the dialer host per destination
 }
 
 func key(ip string, port int) string {
 	return net.JoinHostPort(net.ParseIP(ip).String(), fmt.Sprint(port))
 }
 
-func maToKey(a ma.Multiaddr) (string, error) {
-	na, err := manet.ToNetAddr(a)
-	if err != nil {
-		return "", err
+func udpEntry(ip string, port int, suffix string, cls int) entry {
+	ipv := "ip4"
+	if p := net.ParseIP(ip); p != nil && p.To4() == nil {
+		ipv = "ip6"
 	}
-	ta, ok := na.(*net.TCPAddr)
-	if !ok {
-		return "", fmt.Errorf("not tcp")
-	}
-	return key(ta.IP.String(), ta.Port), nil
+	s := fmt.Sprintf("/%s/%s/udp/%d%s", ipv, ip, port, suffix)
+	return entry{raw: ma.StringCast(s).Bytes(), desc: s, ip: net.ParseIP(ip).String(), ipport: "udp/" + key(ip, port), cls: cls}
 }
 
 func tcpEntry(ipv string, ip string, port int, suffix string, cls int, dialable bool) entry {
@@ -245,6 +304,10 @@ type profile struct {
 	holdBefore               [5]int // index into holds
 	reset                    [5]int // stage at which the client resets the request stream (resetNever ...)
 }
+
+// entry kinds of the QUIC world (drawEntryQ): general mix, and the scenarios that want addresses needing dial data
+var qMix = [18]int{2, 3, 2, 1, 3, 3, 1, 2, 2, 1, 3, 1, 2, 2, 1, 1, 1, 1}
+var qForeign = [18]int{1, 1, 0, 0, 5, 4, 2, 0, 2, 0, 0, 0, 0, 0, 1, 0, 1, 1}
 
 var hollowAnnounced = []int{8000, 8192, 4096, 1000, 16000}
 var hollowCarried = []int{0, 0, 10, 150, 1000}
@@ -304,7 +367,21 @@ func run(t *testing.T, tape *simrt.Tape) *common.Outcome {
 	// further requests FAIL at a drawn stage (reset when the dial-back arrives / after it was answered / after the
 	// request / after the dial data / in the dial-data phase, dial-back reset or unanswered), then opens limit+1
 	// new requests while the first ones are still in service.
-	stratum := g.Weighted(3, 2, 1, 1, 1, 2)
+	// 6 = the QUIC world (appended, so that small first draws keep their meaning): everybody has the real QUIC
+	// transport over simnet's UDP model, part of the runs WebTransport too; some clients sit behind one NAT; one of the
+	// scenarios 0, 1, 4, 5 above is then drawn inside it.
+	stratum := g.Weighted(3, 2, 1, 1, 1, 2, 5)
+	if stratum == 6 {
+		w.q = qworld{on: true}
+		stratum = []int{0, 1, 4, 5}[g.Weighted(4, 2, 1, 2)]
+		w.q.dWT = g.Chance(1, 3)
+		w.q.nodesWT = g.Chance(1, 3)
+		w.q.blackHole = g.Weighted(6, 1, 1)
+		w.q.drop = []int{0, 0, 50, 150}[g.Int(4)]
+		w.q.dup = []int{0, 30}[g.Int(2)]
+		w.q.ulat = g.Chance(1, 3)
+		w.q.natN = g.Weighted(2, 2, 2, 1)
+	}
 	pf := profiles[stratum]
 	nHeld, nFail, nFollow := 0, 0, 0
 	switch stratum {
@@ -347,8 +424,25 @@ func run(t *testing.T, tape *simrt.Tape) *common.Outcome {
 	for i := range cl {
 		cl[i] = &client{idx: i, ip: fmt.Sprintf("5.6.7.%d", 10+i), port: 4001, altIP: fmt.Sprintf("7.7.%d.1", 10+i)}
 	}
+	if w.q.on {
+		if w.q.natN > nPeers {
+			w.q.natN = nPeers
+		}
+		for i, c := range cl {
+			c.viaQUIC = g.Bool()
+			if i < w.q.natN { // behind the NAT: private IP, a port of its own (so that the port-preserving mapping is known)
+				c.nat, c.ip, c.port, c.altIP, c.obsIP = true, fmt.Sprintf("10.1.0.%d", 10+i), 4001+i, "", ipNAT
+			}
+		}
+		shareIP = shareIP && !cl[0].nat && !cl[1].nat
+	}
 	if shareIP {
 		cl[1].ip, cl[1].port = cl[0].ip, 4002
+	}
+	for _, c := range cl {
+		if !c.nat {
+			c.obsIP = c.ip
+		}
 	}
 	// byzantine identify: the client announces the victim's address as one of its own listen addresses
 	// (what a peer announces through identify is under its control)
@@ -364,8 +458,109 @@ func run(t *testing.T, tape *simrt.Tape) *common.Outcome {
 	}
 	o.Logf("stratum %d limits: global=%d per-peer=%d dial-data=%d concurrent-per-peer=%d; %d clients shareIP=%v announce-victim=%v link=%d latencies=%v randseed=%d",
 		stratum, w.lim.rpm, w.lim.perPeer, w.lim.dialData, w.lim.maxConc, nPeers, shareIP, announce, mode, lat != nil, seed)
+	if w.q.on {
+		var via []string
+		for _, c := range cl {
+			v := "tcp"
+			if c.viaQUIC {
+				v = "quic"
+			}
+			if c.nat {
+				v += fmt.Sprintf("+nat(%s:%d)", c.ip, c.port)
+			}
+			via = append(via, v)
+		}
+		o.Logf("QUIC world: dialer has webtransport=%v, nodes listen on webtransport=%v, dialer's UDP black-hole counter=%d, udp drop=%d dup=%d latencies=%v; clients reach S via %v (NAT public IP %s)",
+			w.q.dWT, w.q.nodesWT, w.q.blackHole, w.q.drop, w.q.dup, w.q.ulat, via, ipNAT)
+	}
+
+	wtCls := clsNever // a WebTransport address is dialable only if the dialer host has that transport
+	if w.q.dWT {
+		wtCls = clsYes
+	}
+	drawEntryQ := func(c *client) entry {
+		wts := qMix
+		if stratum == 1 || stratum == 4 {
+			wts = qForeign
+		}
+		switch g.Weighted(wts[:]...) {
+		case 0: // own TCP address at the observed IP (behind the NAT: no port forwarding, the dial hangs)
+			return tcpEntry("ip4", c.obsIP, c.port, "", clsYes, true)
+		case 1: // own QUIC address at the observed IP (behind the NAT: the mapped endpoint)
+			return udpEntry(c.obsIP, c.port, "/quic-v1", clsYes)
+		case 2:
+			return tcpEntry("ip4", c.obsIP, 4999, "", clsYes, true)
+		case 3:
+			return udpEntry(c.obsIP, 4999, "/quic-v1", clsYes)
+		case 4: // own second IP
+			if c.altIP != "" {
+				if g.Bool() {
+					return udpEntry(c.altIP, 4001, "/quic-v1", clsYes)
+				}
+				return tcpEntry("ip4", c.altIP, 4001, "", clsYes, true)
+			}
+			return udpEntry(ipV, 4001, "/quic-v1", clsYes)
+		case 5:
+			return udpEntry(ipV, 4001, "/quic-v1", clsYes)
+		case 6:
+			return tcpEntry("ip4", ipV, 4001, "", clsYes, true)
+		case 7:
+			e := udpEntry(c.obsIP, c.port, "/quic-v1/webtransport", wtCls)
+			e.lazy, e.desc = lazyOwnWT, e.desc+"/certhash/<own, current>"
+			return e
+		case 8:
+			e := udpEntry(ipV, 4001, "/quic-v1/webtransport", wtCls)
+			e.lazy, e.desc = lazyVictimWT, e.desc+"/certhash/<victim's, current>"
+			return e
+		case 9: // WebTransport without a certhash: the transport claims it, the dial cannot succeed
+			cls := clsNever
+			if w.q.dWT {
+				cls = clsMaybe
+			}
+			return udpEntry(ipV, 4001, "/quic-v1/webtransport", cls)
+		case 10: // the client's own private address
+			if c.nat {
+				if g.Bool() {
+					return udpEntry(c.ip, c.port, "/quic-v1", clsNever)
+				}
+				return tcpEntry("ip4", c.ip, c.port, "", clsNever, true)
+			}
+			return udpEntry("10.0.0.7", 4001, "/quic-v1", clsNever)
+		case 11:
+			return udpEntry([]string{"192.168.1.5", "127.0.0.1", "172.16.3.4", "fd00::1"}[g.Int(4)], 4001, "/quic-v1", clsNever)
+		case 12: // DNS forms: no transport of the dialer host claims them (no WebTransport-over-DNS form: that one would be resolved)
+			k := g.Int(5)
+			s := []string{"/dns4/example.com/tcp/4001", "/dns/example.com/udp/4001/quic-v1", "/dns6/example.com/tcp/4001", "/dnsaddr/example.com", "/dns4/localhost/tcp/4001"}[k]
+			cls := clsMaybe
+			if k == 4 {
+				cls = clsNever
+			}
+			return entry{raw: ma.StringCast(s).Bytes(), desc: s, cls: cls}
+		case 13: // kinds no transport of the dialer host claims
+			s := []string{
+				fmt.Sprintf("/ip4/%s/tcp/%d/ws", c.obsIP, c.port),
+				fmt.Sprintf("/ip4/%s/udp/%d/webrtc-direct/certhash/%s", c.obsIP, c.port, fakeCerthash),
+				fmt.Sprintf("/ip4/%s/udp/4001/quic-v1/p2p/%s/p2p-circuit", ipV, idV),
+				fmt.Sprintf("/ip4/%s/udp/%d/quic", c.obsIP, c.port),
+				fmt.Sprintf("/ip4/%s/tcp/%d/tls/ws", ipV, 4001),
+			}[g.Int(5)]
+			return entry{raw: ma.StringCast(s).Bytes(), desc: s, cls: clsNever}
+		case 14:
+			return udpEntry("8.8.4.4", 4001, "/quic-v1", clsYes)
+		case 15:
+			b := malformed[g.Int(len(malformed))]
+			return entry{raw: b, desc: fmt.Sprintf("raw:%x", b), cls: clsNever}
+		case 16:
+			oc := cl[(c.idx+1+g.Int(nPeers-1))%nPeers]
+			return udpEntry(oc.obsIP, oc.port, "/quic-v1", clsYes)
+		}
+		return udpEntry(ipS, 4001, "/quic-v1", clsYes)
+	}
 
 	drawEntry := func(c *client) entry {
+		if w.q.on {
+			return drawEntryQ(c)
+		}
 		switch g.Weighted(pf.entry[:]...) {
 		case 0:
 			return tcpEntry("ip4", c.ip, c.port, "", clsYes, true)
@@ -416,6 +611,9 @@ func run(t *testing.T, tape *simrt.Tape) *common.Outcome {
 		case 1:
 			b := malformed[g.Int(len(malformed))]
 			return entry{raw: b, desc: fmt.Sprintf("raw:%x", b), cls: clsNever}
+		}
+		if w.q.on {
+			return udpEntry("10.0.0.7", 4001, "/quic-v1", clsNever)
 		}
 		return otherEntry("/ip4/8.8.4.4/udp/4001/quic-v1", "8.8.4.4")
 	}
@@ -487,6 +685,19 @@ func run(t *testing.T, tape *simrt.Tape) *common.Outcome {
 			p.peer, p.variant, p.gap, p.dbReply, p.resetAt = 0, varNormal, 0, 0, resetNever
 			c := cl[0]
 			foreign := func() []entry {
+				if w.q.on {
+					viaUDP := g.Bool()
+					if g.Chance(1, 3) || c.altIP == "" {
+						if viaUDP {
+							return []entry{udpEntry(ipV, 4001, "/quic-v1", clsYes)}
+						}
+						return []entry{tcpEntry("ip4", ipV, 4001, "", clsYes, true)}
+					}
+					if viaUDP {
+						return []entry{udpEntry(c.altIP, 4001, "/quic-v1", clsYes)}
+					}
+					return []entry{tcpEntry("ip4", c.altIP, 4001, "", clsYes, true)}
+				}
 				if g.Chance(1, 3) {
 					return []entry{tcpEntry("ip4", ipV, 4001, "", clsYes, true)}
 				}
@@ -501,6 +712,9 @@ func run(t *testing.T, tape *simrt.Tape) *common.Outcome {
 					p.gap = []time.Duration{300 * time.Millisecond, time.Second}[g.Int(2)]
 				}
 				p.entries = []entry{tcpEntry("ip4", c.ip, c.port, "", clsYes, true)}
+				if w.q.on && (c.nat || g.Bool()) {
+					p.entries = []entry{udpEntry(c.obsIP, c.port, "/quic-v1", clsYes)}
+				}
 				if g.Chance(1, 4) {
 					p.entries = foreign()
 				}
@@ -544,17 +758,55 @@ func run(t *testing.T, tape *simrt.Tape) *common.Outcome {
 		}
 	}
 
+	// crypto/rand (QUIC connection ids, TLS randoms, certificate keys) is a function of the run, too
+	restore := simrand.Install(uint64(seed) + 7)
+	defer restore()
+	maxSteps := 1000000
+	if w.q.on {
+		maxSteps = 4000000
+	}
 	var nodes []*simhost.Node
-	res := simrt.Run(t, simrt.Config{MaxSteps: 1000000, IdleLimit: 24 * time.Hour, TraceCap: 2000}, tape.S, func() {
+	res := simrt.Run(t, simrt.Config{MaxSteps: maxSteps, IdleLimit: 24 * time.Hour, TraceCap: 2000}, tape.S, func() {
 		rand.Seed(seed)
 		n := simnet.New(tape.S, simnet.Config{Mode: mode, Latencies: lat})
 		w.n = n
+		if w.q.on {
+			ucfg := simnet.UDPConfig{DropPermille: w.q.drop, DupPermille: w.q.dup}
+			if w.q.ulat {
+				ucfg.Latencies = []time.Duration{0, time.Millisecond, 15 * time.Millisecond}
+			}
+			n.SetUDP(ucfg)
+			w.warm, w.udpOther = true, map[string]dialRec{}
+			// ground truth for UDP: every datagram the dialer host sends. A datagram that starts with a long-header
+			// Initial packet (QUIC v1: 0b1100....) is a dial attempt, retransmissions included.
+			n.SetUDPFilter(func(from, to *net.UDPAddr, data []byte) simnet.UDPVerdict {
+				if from.IP.String() == ipD {
+					rec := dialRec{To: "udp/" + key(to.IP.String(), to.Port), Start: simrt.Stamp(), StartAt: simrt.Now(), Outcome: "initial", udp: true}
+					if len(data) > 0 && data[0]&0xf0 == 0xc0 {
+						w.udpInit = append(w.udpInit, rec)
+					} else if _, ok := w.udpOther[rec.To]; !ok {
+						rec.Outcome = "datagram"
+						w.udpOther[rec.To] = rec
+					}
+				}
+				if w.warm {
+					return simnet.UDPSure // the warm-up is not part of the experiment: no loss
+				}
+				return simnet.UDPPass
+			})
+			for _, c := range cl {
+				if c.nat {
+					n.SetNAT(c.ip, ipNAT)
+				}
+			}
+		}
 		mk := func(seed int, ip string, port int, extra ...ma.Multiaddr) *simhost.Node {
 			var ho *basichost.HostOpts
 			if len(extra) > 0 {
 				ho = &basichost.HostOpts{AddrsFactory: func(a []ma.Multiaddr) []ma.Multiaddr { return append(append([]ma.Multiaddr(nil), a...), extra...) }}
 			}
-			nd, err := simhost.New(n, simhost.Opts{Key: simhost.DetKey(seed), IP: ip, Port: port, Security: "noise", WithHost: true, HostOpts: ho})
+			nd, err := simhost.New(n, simhost.Opts{Key: simhost.DetKey(seed), IP: ip, Port: port, Security: "noise", WithHost: true, HostOpts: ho,
+				QUIC: w.q.on, WebTransport: w.q.on && w.q.nodesWT})
 			if err != nil {
 				o.Trouble = "node: " + err.Error()
 				return nil
@@ -579,8 +831,23 @@ func run(t *testing.T, tape *simrt.Tape) *common.Outcome {
 				dialer = w.D.Host
 			}
 		} else {
-			nd, err := simhost.New(n, simhost.Opts{Key: simhost.DetKey(2), IP: ipD, Security: "noise",
-				SwarmOpts: []swarm.Option{swarm.WithDialRanker(swarm.NoDelayDialRanker), swarm.WithReadOnlyBlackHoleDetector()}})
+			sopts := []swarm.Option{swarm.WithDialRanker(swarm.NoDelayDialRanker), swarm.WithReadOnlyBlackHoleDetector()}
+			if w.q.on {
+				// libp2p.New hands the dialer the main host's black-hole counters (read-only). A host that has been dialling
+				// over UDP for a while has its counter in state Allowed; a fresh one makes the read-only detector refuse UDP.
+				switch w.q.blackHole {
+				case 0:
+					ctr := &swarm.BlackHoleSuccessCounter{N: 4, MinSuccesses: 1, Name: "UDP"}
+					for i := 0; i < 4; i++ {
+						ctr.RecordResult(true)
+					}
+					sopts = append(sopts, swarm.WithUDPBlackHoleSuccessCounter(ctr))
+				case 1:
+					sopts = append(sopts, swarm.WithUDPBlackHoleSuccessCounter(nil))
+				}
+			}
+			nd, err := simhost.New(n, simhost.Opts{Key: simhost.DetKey(2), IP: ipD, Security: "noise", SwarmOpts: sopts,
+				QUIC: w.q.on, WebTransport: w.q.on && w.q.dWT})
 			if err != nil {
 				o.Trouble = "dialer node: " + err.Error()
 			} else {
@@ -614,25 +881,41 @@ func run(t *testing.T, tape *simrt.Tape) *common.Outcome {
 		w.V.Host.SetStreamHandler(autonatv2.DialBackProtocol, w.dialBackHandler(-1))
 		for _, c := range cl {
 			if c.announceVictim {
-				c.node = mk(10+c.idx, c.ip, c.port, ma.StringCast("/ip4/"+ipV+"/tcp/4001"))
+				extra := []ma.Multiaddr{ma.StringCast("/ip4/" + ipV + "/tcp/4001")}
+				if w.q.on {
+					extra = append(extra, ma.StringCast("/ip4/"+ipV+"/udp/4001/quic-v1"))
+				}
+				c.node = mk(10+c.idx, c.ip, c.port, extra...)
 			} else {
 				c.node = mk(10+c.idx, c.ip, c.port)
 			}
 			if c.node == nil {
 				return
 			}
-			if err := c.node.Swarm.Listen(ma.StringCast(fmt.Sprintf("/ip4/%s/tcp/4001", c.altIP))); err != nil {
-				o.Trouble = "second listener: " + err.Error()
-				return
+			if c.altIP != "" {
+				if err := c.node.Swarm.Listen(ma.StringCast(fmt.Sprintf("/ip4/%s/tcp/4001", c.altIP))); err != nil {
+					o.Trouble = "second listener: " + err.Error()
+					return
+				}
+				if w.q.on {
+					if err := c.node.Swarm.Listen(ma.StringCast(fmt.Sprintf("/ip4/%s/udp/4001/quic-v1", c.altIP))); err != nil {
+						o.Trouble = "second QUIC listener: " + err.Error()
+						return
+					}
+				}
 			}
 			c.node.Host.SetStreamHandler(autonatv2.DialBackProtocol, w.dialBackHandler(c.idx))
-			c.node.PS.AddAddrs(w.S.ID, []ma.Multiaddr{w.S.Addr}, peerstore.PermanentAddrTTL)
 		}
-		// warm-up: every client connects to S and identify completes, so that the requests themselves
-		// start from an established connection (as a real client's would)
+		// warm-up: every client connects to S (over TCP, or over QUIC in the QUIC world if drawn so) and identify
+		// completes, so that the requests themselves start from an established connection (as a real client's would)
 		for _, c := range cl {
+			sAddr := w.S.Addr
+			if c.viaQUIC {
+				sAddr = w.S.QAddr
+			}
+			c.node.PS.AddAddrs(w.S.ID, []ma.Multiaddr{sAddr}, peerstore.PermanentAddrTTL)
 			ctx, cancel := contextTimeout(30 * time.Second)
-			err := c.node.Host.Connect(ctx, w.S.AddrInfo())
+			err := c.node.Host.Connect(ctx, peer.AddrInfo{ID: w.S.ID, Addrs: []ma.Multiaddr{sAddr}})
 			cancel()
 			if err != nil {
 				o.Trouble = fmt.Sprintf("warm-up connect of C%d failed: %v", c.idx, err)
@@ -643,6 +926,7 @@ func run(t *testing.T, tape *simrt.Tape) *common.Outcome {
 		simrt.TimeSleep(time.Second)
 		simrt.WaitIdle()
 		warmDials := len(n.Dials())
+		w.warm = false
 
 		// ---- the arrival pattern -------------------------------------------------------------
 		for j, r := range w.recs {
@@ -676,10 +960,29 @@ func run(t *testing.T, tape *simrt.Tape) *common.Outcome {
 				o.Probe("dialer-peerstore-retains-client-addresses")
 			}
 		}
-		w.evaluate(n.Dials()[warmDials:])
+		var others []dialRec
+		for _, d := range w.udpOther {
+			others = append(others, d)
+		}
+		sort.Slice(others, func(i, j int) bool { return others[i].Start < others[j].Start })
+		w.evaluate(dialsOfD(n.Dials()[warmDials:], w.udpInit), others)
 	})
 	o.Sched = res
 	o.Virtual = res.Virtual
+	if w.q.on && w.n != nil {
+		o.Probe("quic-world")
+		for _, k := range []string{"udp-lost", "udp-duplicated", "udp-delayed"} {
+			if v := w.n.UDPCounts()[k]; v > 0 {
+				if o.Faults == nil {
+					o.Faults = map[string]int{}
+				}
+				o.Faults[k] += v
+			}
+		}
+	}
+	if w.q.on && w.n != nil && os.Getenv("C16_TRACEQ") != "" {
+		fmt.Fprintf(os.Stderr, "TRACEQ steps=%d udp=%v nat=%v\n%s\n", res.Steps, w.n.UDPCounts(), w.n.NATMappings(), strings.Join(o.Trace, "\n"))
+	}
 	if res.Panic != "" {
 		o.Violate("C16/panic", "%s", res.Panic)
 	}
